@@ -876,8 +876,9 @@ func (f *FuncCtx) loopCommon(label string, env *Env, fl *flow, nodes []ast.Node,
 		f.fail("loop %d in %s has no invariant", ord, fr.name)
 		return env
 	}
+	loopEntry := env.clone()
 	sc := func(e *Env) *specCtx {
-		return &specCtx{old: f.entry, pos: scopePos, scope: fr.scope, pcs: fr.pc, results: nil, bound: []map[string]Val{fr.bound}}
+		return &specCtx{old: f.entry, pos: scopePos, scope: fr.scope, pcs: fr.pc, results: nil, bound: []map[string]Val{fr.bound}, loopEntry: loopEntry}
 	}
 	// ghost index etc. initial values
 	for k, v := range ghost {
@@ -951,7 +952,13 @@ func (f *FuncCtx) loopCommon(label string, env *Env, fl *flow, nodes []ast.Node,
 	for k := range head.names {
 		if strings.HasPrefix(k, "calls:") || strings.HasPrefix(k, "lastarg:") {
 			name := strings.TrimPrefix(k, "calls:")
-			if f.loopCalls(nodes, name, env) || strings.HasPrefix(k, "lastarg:") {
+			if strings.HasPrefix(k, "lastarg:") {
+				name = strings.TrimPrefix(k, "lastarg:")
+				if j := strings.LastIndex(name, ":"); j >= 0 {
+					name = name[:j]
+				}
+			}
+			if f.loopCalls(nodes, name, env) {
 				v := head.names[k]
 				head.names[k] = Val{T: f.fresh("ncalls", f.sortOfVal(v)), Typ: v.Typ, S: v.S}
 			}
@@ -1052,17 +1059,31 @@ func (f *FuncCtx) loopCalls(nodes []ast.Node, name string, env *Env) bool {
 }
 
 func (f *FuncCtx) closureMayCall(id *ast.Ident, name string, env *Env) bool {
-	// a local closure (bound function literal) may call anything tracked; an opaque function value
-	// (parameter, range variable, field) cannot reach the syntactic call sites of this function
-	if o := f.info().ObjectOf(id); o != nil {
-		if v, ok := env.vars[o]; ok && v.Clo != nil {
-			return true
+	// a local closure (bound function literal) reaches a tracked callee only if one of the literals it
+	// may be bound to contains such a call (transitively); an opaque function value (parameter, range
+	// variable, field) cannot reach the syntactic call sites of this function
+	o := f.info().ObjectOf(id)
+	if o == nil {
+		return false
+	}
+	if f.mayCallBusy[o] {
+		return false
+	}
+	if f.mayCallBusy == nil {
+		f.mayCallBusy = map[types.Object]bool{}
+	}
+	f.mayCallBusy[o] = true
+	defer delete(f.mayCallBusy, o)
+	var lits []*ast.FuncLit
+	if v, ok := env.vars[o]; ok && v.Clo != nil {
+		if lit, ok := v.Clo.Lit.(*ast.FuncLit); ok {
+			lits = append(lits, lit)
 		}
-		if _, ok := env.vars[o]; !ok {
-			// declared inside the loop: only a binding to a function literal can reach tracked callees
-			if decl := f.E.declNodeOf(f.Pkg, o); decl {
-				return true
-			}
+	}
+	lits = append(lits, f.E.litsOf(f.Pkg, o)...)
+	for _, lit := range lits {
+		if f.loopCalls([]ast.Node{lit.Body}, name, env) {
+			return true
 		}
 	}
 	return false
